@@ -59,7 +59,10 @@ use astria_core::{
         },
     },
     sequencerblock::v1::block::Deposit,
-    upgrades::test_utils::UpgradesBuilder,
+    upgrades::{
+        test_utils::UpgradesBuilder,
+        v1::Change,
+    },
     Protobuf as _,
 };
 use cnidarium::StateRead as _;
@@ -343,6 +346,7 @@ struct Inst {
 enum ItemKind {
     R1,
     R2,
+    Upg,
     Eci,
     Tx(u32),
     Garbage,
@@ -385,6 +389,7 @@ struct World {
     rec: Rec,
     trace: Trace,
     dave: SigningKey,
+    blackburn: u64,
 }
 
 fn key_of(w: &World, name: &str) -> SigningKey {
@@ -414,8 +419,17 @@ fn addr_of(w: &World, name: &str) -> Address {
     astria_address(&key_of(w, name).address_bytes())
 }
 
-async fn new_inst(dave: &SigningKey) -> Inst {
-    let mut fixture = Fixture::uninitialized(None).await;
+fn upgrades_with(blackburn: u64) -> astria_core::upgrades::v1::Upgrades {
+    UpgradesBuilder::new()
+        .set_aspen(Some(1))
+        .set_blackburn(Some(blackburn))
+        .build()
+}
+
+/// A fresh node: genesis, then blocks 1..=4 through `FinalizeBlock; Commit` (Aspen activates at
+/// height 1, Blackburn at `blackburn`; 3 is the crate's test default).
+async fn new_inst(dave: &SigningKey, blackburn: u64) -> Inst {
+    let mut fixture = Fixture::uninitialized(Some(upgrades_with(blackburn))).await;
     let accounts = vec![
         (astria_address(&ALICE.address_bytes()), TEN_QUINTILLION),
         (astria_address(&BOB.address_bytes()), TEN_QUINTILLION),
@@ -429,22 +443,51 @@ async fn new_inst(dave: &SigningKey) -> Inst {
         .with_genesis_accounts(accounts)
         .init()
         .await;
-    let _ = fixture.run_until_blackburn_applied().await;
-    let (app, storage) = fixture.destructure();
+    let (mut app, storage) = fixture.destructure();
+    let upgrades = upgrades_with(blackburn);
+    for height in 1..=4_u64 {
+        let mut txs: Vec<Bytes> = generate_rollup_datas_commitment::<true>(&[], HashMap::new())
+            .into_iter()
+            .collect();
+        let hashes: Option<Vec<ChangeHash>> = if height == 1 {
+            upgrades.aspen().map(|u| u.changes().map(Change::calculate_hash).collect())
+        } else if height == blackburn {
+            upgrades.blackburn().map(|u| u.changes().map(Change::calculate_hash).collect())
+        } else {
+            None
+        };
+        if let Some(h) = hashes {
+            txs.push(DataItem::UpgradeChangeHashes(h).encode());
+        }
+        if height > 2 {
+            txs.push(crate::test_utils::dummy_extended_commit_info().encode());
+        }
+        let req = abci::request::FinalizeBlock {
+            hash: Hash::Sha256(Sha256::digest(height.to_le_bytes()).into()),
+            height: Height::try_from(height).unwrap(),
+            time: Time::from_unix_timestamp(1_744_036_762 + height as i64, 123_456_789).unwrap(),
+            next_validators_hash: Hash::default(),
+            proposer_address: account::Id::new(ALICE.address_bytes()),
+            txs,
+            decided_last_commit: CommitInfo {
+                votes: vec![],
+                round: Round::default(),
+            },
+            misbehavior: vec![],
+        };
+        app.finalize_block(req, storage.clone()).await.unwrap();
+        app.commit(storage.clone()).await.unwrap();
+    }
     Inst {
         app,
         storage,
     }
 }
 
-async fn restart(inst: &mut Inst) {
+async fn restart(inst: &mut Inst, blackburn: u64) {
     let metrics = inst.app.metrics;
     let mempool = Mempool::new(metrics, 100, 100);
-    let upgrades_handler = UpgradesBuilder::new()
-        .set_aspen(Some(1))
-        .set_blackburn(Some(3))
-        .build()
-        .into();
+    let upgrades_handler = upgrades_with(blackburn).into();
     let ve_handler = vote_extension::Handler::new(None);
     inst.app = App::new(
         inst.storage.latest_snapshot(),
@@ -767,6 +810,23 @@ fn lc_key(ve: &str) -> String {
     s
 }
 
+
+/// which `DataItem` variant (if any) these bytes decode to: `U` upgrade change hashes, `E` extended
+/// commit info, `1` / `2` the roots
+fn raw_item_kind(item: &Bytes) -> Option<char> {
+    use astria_core::generated::astria::sequencerblock::v1::{
+        data_item::Value,
+        DataItem as RawDataItem,
+    };
+    let raw = RawDataItem::decode(item.clone()).ok()?;
+    match raw.value? {
+        Value::RollupTransactionsRoot(_) => Some('1'),
+        Value::RollupIdsRoot(_) => Some('2'),
+        Value::UpgradeChangeHashes(_) => Some('U'),
+        Value::ExtendedCommitInfo(_) => Some('E'),
+    }
+}
+
 /// does the extended-commit-info data item decode the way `ExpandedBlockData::new_from_typed_data`
 /// needs it to?
 fn eci_well_formed(item: &Bytes) -> bool {
@@ -824,6 +884,7 @@ fn shape_of(b: &Blk) -> String {
         shape.push(match kind {
             ItemKind::R1 => "R1".to_string(),
             ItemKind::R2 => "R2".to_string(),
+            ItemKind::Upg => format!("U:{}", bytes.len()),
             ItemKind::Eci => format!("E:{}", bytes.len()),
             ItemKind::Tx(t) => format!("T{t}"),
             ItemKind::Garbage => format!("G:{}", bytes.len()),
@@ -901,6 +962,10 @@ impl World {
                 ItemKind::R2 => {
                     items.push(format!("R2#{bid}"));
                     shape.push("R2".to_string());
+                }
+                ItemKind::Upg => {
+                    items.push(format!("U#{bid}:{}", bytes.len()));
+                    shape.push(format!("U:{}", bytes.len()));
                 }
                 ItemKind::Eci => {
                     items.push(format!("E#{bid}:{}:{}", bytes.len(), u8::from(eci_well_formed(bytes))));
@@ -1046,7 +1111,8 @@ impl World {
             "commit" => self.op_commit(&a).await,
             "restart" => {
                 let i = arg_u64(&a, "i") as usize;
-                restart(&mut self.insts[i]).await;
+                let bb = self.blackburn;
+                restart(&mut self.insts[i], bb).await;
                 format!("ok exec={}", self.exec_dump(i))
             }
             other => panic!("unknown op {other}"),
@@ -1055,13 +1121,14 @@ impl World {
 
     async fn op_reset(&mut self, a: &HashMap<String, String>) -> String {
         let k = arg_u64(a, "k") as usize;
+        self.blackburn = a.get("bb").and_then(|s| s.parse().ok()).unwrap_or(3);
         self.insts.clear();
         self.txs.clear();
         self.blks.clear();
         self.txs_lists.clear();
         self.byte_ids.clear();
         for _ in 0..k {
-            self.insts.push(new_inst(&self.dave).await);
+            self.insts.push(new_inst(&self.dave, self.blackburn).await);
         }
         let _ = self.rec.take();
         let mut roots = vec![];
@@ -1180,6 +1247,27 @@ impl World {
                 .len()
         };
         let empty_eci_len = DataItem::ExtendedCommitInfo(Bytes::new()).encode().len();
+        // the upgrade-change-hashes item the code will inject at an upgrade activation height
+        let up = {
+            let upgrades = self.insts[i].app.upgrades_handler.upgrades();
+            let hashes: Option<Vec<ChangeHash>> = upgrades
+                .aspen()
+                .filter(|u| u.activation_height() == height)
+                .map(|u| u.changes().map(Change::calculate_hash).collect())
+                .or_else(|| {
+                    upgrades
+                        .blackburn()
+                        .filter(|u| u.activation_height() == height)
+                        .map(|u| u.changes().map(Change::calculate_hash).collect())
+                });
+            match hashes {
+                Some(h) => {
+                    let item = DataItem::UpgradeChangeHashes(h).encode();
+                    format!("{}:{}", self.byte_id(&item), item.len())
+                }
+                None => "-".to_string(),
+            }
+        };
 
         let req = abci::request::PrepareProposal {
             max_tx_bytes: max,
@@ -1215,16 +1303,17 @@ impl World {
                 let mut items = vec![];
                 let mut inc = vec![];
                 for (k, bytes) in resp.txs.iter().enumerate() {
-                    let kind = match k {
-                        0 => ItemKind::R1,
-                        1 => ItemKind::R2,
-                        2 => ItemKind::Eci,
-                        _ => match self.tx_id_of_bytes(bytes) {
-                            Some(id) => {
-                                inc.push(id.to_string());
-                                ItemKind::Tx(id)
-                            }
-                            None => ItemKind::Garbage,
+                    let kind = match (k, self.tx_id_of_bytes(bytes)) {
+                        (0, _) => ItemKind::R1,
+                        (1, _) => ItemKind::R2,
+                        (_, Some(id)) => {
+                            inc.push(id.to_string());
+                            ItemKind::Tx(id)
+                        }
+                        (_, None) => match raw_item_kind(bytes) {
+                            Some('U') => ItemKind::Upg,
+                            Some('E') => ItemKind::Eci,
+                            _ => ItemKind::Garbage,
                         },
                     };
                     items.push((bytes.clone(), kind));
@@ -1238,7 +1327,6 @@ impl World {
                     })
                     .sum();
                 let deposits = self.insts[i].app.state.get_cached_block_deposits();
-                let eci_len = items.get(2).map_or(0, |(b, _)| b.len());
                 let blk = Blk {
                     height,
                     time_s,
@@ -1254,11 +1342,15 @@ impl World {
                     by: i,
                 };
                 let mut blk = blk;
-                blk.prices = blk.items.get(2).map_or(0, |(b, _)| eci_price_count(b));
+                blk.prices = blk
+                    .items
+                    .iter()
+                    .find(|(_, k)| *k == ItemKind::Eci)
+                    .map_or(0, |(b, _)| eci_price_count(b));
                 self.blks.insert(bid, blk);
                 let desc = self.blk_desc(bid);
                 format!(
-                    "ok q={qs} o={o} inj={full_eci_len}/{empty_eci_len} | inc={} cb={cb} sb={sb} shape={} exec={} \
+                    "ok q={qs} o={o} inj={full_eci_len}/{empty_eci_len} up={up} | inc={} cb={cb} sb={sb} shape={} exec={} \
                      ph={ph} | {desc}",
                     if inc.is_empty() { "-".to_string() } else { inc.join(",") },
                     shape_of(&self.blks[&bid]),
@@ -1266,7 +1358,7 @@ impl World {
                 )
             }
             Err(e) => format!(
-                "err:{} q={qs} o={o} inj={full_eci_len}/{empty_eci_len} | exec={} ph={ph}",
+                "err:{} q={qs} o={o} inj={full_eci_len}/{empty_eci_len} up={up} | exec={} ph={ph}",
                 err_kind(&e),
                 self.exec_dump(i)
             ),
@@ -1322,6 +1414,13 @@ impl World {
             }
             "drop1" => {
                 b.items.remove(1);
+            }
+            "dropU" => {
+                if let Some(p) = b.items.iter().position(|(_, k)| *k == ItemKind::Upg) {
+                    b.items.remove(p);
+                } else {
+                    return "err:inapplicable".to_string();
+                }
             }
             "dropE" => {
                 if let Some(p) = b.items.iter().position(|(_, k)| *k == ItemKind::Eci) {
@@ -1791,8 +1890,8 @@ async fn refresh(w: &World, g: &mut Gen) {
 const K: usize = 5;
 
 /// C05: a multi-block history fed to K instances by different legal call orders
-async fn gen_c05(w: &mut World, g: &mut Gen, heights: usize) {
-    w.run(&format!("abci reset k={K}")).await;
+async fn gen_c05(w: &mut World, g: &mut Gen, heights: usize, bb: u64) {
+    w.run(&format!("abci reset k={K} bb={bb}")).await;
     for hh in 0..heights {
         refresh(w, g).await;
         let height = committed_height(&w.insts[0]).await + 1;
@@ -1973,14 +2072,14 @@ async fn gen_c05(w: &mut World, g: &mut Gen, heights: usize) {
 }
 
 const MUTATIONS: &[&str] = &[
-    "root1", "root2", "swaproots", "drop0", "drop1", "dropE", "Elast", "Efirst", "garbage", "unsigned",
+    "root1", "root2", "swaproots", "drop0", "drop1", "dropU", "dropE", "Elast", "Efirst", "garbage", "unsigned",
     "regroup", "dup",
 ];
 
 /// C06: mempool contents around the limits -> real prepare on A (sweep of max_tx_bytes), real
 /// process on B, single-field mutations processed on C.
-async fn gen_c06(w: &mut World, g: &mut Gen, mempools: usize, advance: bool) {
-    w.run("abci reset k=3").await;
+async fn gen_c06(w: &mut World, g: &mut Gen, mempools: usize, advance: bool, bb: u64) {
+    w.run(&format!("abci reset k=3 bb={bb}")).await;
     for round in 0..mempools {
         refresh(w, g).await;
         let height = committed_height(&w.insts[0]).await + 1;
@@ -2055,8 +2154,13 @@ async fn gen_c06(w: &mut World, g: &mut Gen, mempools: usize, advance: bool) {
                     // derive the sweep from the sizes of the unconstrained proposal
                     let blk = w.blks[&b].clone();
                     let total: u64 = blk.items.iter().map(|(x, _)| x.len() as u64).sum();
-                    let inj: u64 = blk.items.iter().take(3).map(|(x, _)| x.len() as u64).sum();
-                    let first_tx = blk.items.get(3).map_or(0, |(x, _)| x.len() as u64);
+                    let n_inj = blk
+                        .items
+                        .iter()
+                        .take_while(|(_, k)| !matches!(k, ItemKind::Tx(_) | ItemKind::Garbage))
+                        .count();
+                    let inj: u64 = blk.items.iter().take(n_inj).map(|(x, _)| x.len() as u64).sum();
+                    let first_tx = blk.items.get(n_inj).map_or(0, |(x, _)| x.len() as u64);
                     let mut cands = vec![
                         total,
                         total.saturating_sub(1),
@@ -2153,6 +2257,7 @@ fn driver() {
             rec,
             trace: Trace::from_env(),
             dave: dave_key(),
+            blackburn: 3,
         };
         if let Some(lines) = common::replay_lines() {
             for op in lines {
@@ -2171,13 +2276,17 @@ fn driver() {
         } else {
             (3, 10, 3, 3)
         };
-        for _ in 0..sessions5 {
+        for s in 0..sessions5 {
             let mut gg = Gen::new(Rng(g.rng.next()));
-            gen_c05(&mut w, &mut gg, heights).await;
+            // Blackburn activates before the session (3) or at a height inside it
+            let bb = [3, 7, 5, 9][s % 4];
+            gen_c05(&mut w, &mut gg, heights, bb).await;
         }
         for s in 0..sessions6 {
             let mut gg = Gen::new(Rng(g.rng.next()));
-            gen_c06(&mut w, &mut gg, mempools, s % 2 == 0).await;
+            // every third session starts right at the Blackburn activation height
+            let bb = if s % 3 == 1 { 5 } else { 3 };
+            gen_c06(&mut w, &mut gg, mempools, s % 2 == 0, bb).await;
         }
         w.trace.finish();
     });
